@@ -698,6 +698,21 @@ func applierReplay(args []string) {
 					}
 				}
 
+				// C02: every concrete shape of an unbound delta hash / a foreign reveal value / a foreign signed suffix
+				if expand && len(ed.Path) <= expandMaxPath && (!ed.Op.Dhash || ed.Op.Reveal == "other" || !ed.Op.Sfx) && ed.Op.Sig == "ok" {
+					k := pathKey(init, ed.Path) + ed.Op.key() + "/ways"
+					if _, dup := expandedOps.LoadOrStore(k, true); !dup {
+						for w := 1; w <= 6; w++ {
+							shaped := ed.Op
+							shaped.ForceWay = w
+							r2 := env.stepVariant(pre, &shaped, 0)
+							g2 := env.project(r2.next.rm)
+							atomic.AddInt64(&tampers, 1)
+							judge(r2, g2, 0, fmt.Sprintf("shape%d-", w))
+						}
+					}
+				}
+
 				// C09: the (from, until) pair handed to the time validator by the parser
 				if withParser && allOK(&ed.Op) && (ed.Op.Type == "update" || ed.Op.Type == "recover" || ed.Op.Type == "deactivate") {
 					rec := &recordingTimeValidator{}
